@@ -3,6 +3,9 @@
 From Grex Require Import Base.Str Model.Config Model.Builder Model.Cluster Model.Dfa Model.Expr
   Model.Pipeline.
 From Grex Require Import Proofs.Lang Proofs.Construction Proofs.Wrappers Proofs.PropsGlue.
+From Grex Require Import Engine.Syntax Engine.Parse.
+From Grex Require Import Proofs.Spec Proofs.PrintParseNum Proofs.PrintParseDefs Proofs.PrintParseXTok
+  Proofs.EndToEnd Proofs.EndToEndVerbose.
 From GrexGen Require Import SrcConsts SrcBuilder.
 
 (* build() always returns a regular expression *)
@@ -43,6 +46,28 @@ Theorem C07_wf : forall c db sc ws e,
   Pipeline.final_expr c (grapheme_clusters c db (normalise c db ws)) sc = Some e -> wf_expr e.
 Proof. exact construction_wf. Qed.
 
+(* the output is always syntactically valid: build returns a string and the model of the
+   regex crate's parser accepts it (notions: Props/C01.v (f)); no no_merge hypothesis *)
+Theorem C07_valid : forall isd is_ws c db sc ws,
+  ws <> [] ->
+  Forall (Forall scalar) ws ->
+  (forall s0, In s0 ws -> Forall scalar (lower' db s0)) ->
+  oracle_ok db (normalise c db ws) ->
+  printable c -> f_verbose c = false -> ws_ok is_ws ->
+  exists s r, build isd c db sc ws = Some s
+    /\ parse is_ws s = Some (mkF (f_ci c) false, r).
+Proof. exact build_parses_total. Qed.
+
+Theorem C07_valid_verbose : forall isd is_ws c db sc ws,
+  ws <> [] ->
+  Forall (Forall scalar) ws ->
+  (forall s0, In s0 ws -> Forall scalar (lower' db s0)) ->
+  oracle_ok db (normalise c db ws) ->
+  printable c -> f_verbose c = true -> ws_x is_ws ->
+  exists s r, build isd c db sc ws = Some s
+    /\ parse is_ws s = Some (mkF (f_ci c) true, r).
+Proof. exact build_parses_total_verbose. Qed.
+
 Print Assumptions C07_total.
 Print Assumptions C07_final_expr_total.
 Print Assumptions C07_final_expr_total_pipeline.
@@ -50,3 +75,5 @@ Print Assumptions C07_documented_panics.
 Print Assumptions C07_positive_thresholds.
 Print Assumptions C07_thresholds_stay_positive.
 Print Assumptions C07_wf.
+Print Assumptions C07_valid.
+Print Assumptions C07_valid_verbose.
